@@ -135,6 +135,13 @@ func validateCopyTarget(op map[string]*json.RawMessage) error {
 		}
 	}
 
+	// the JSON patch library ignores whatever precedes the first '/' of a pointer
+	for _, pointer := range []string{from, path} {
+		if pointer != "" && !strings.HasPrefix(pointer, "/") {
+			return fmt.Errorf("'%s' is not a JSON pointer", pointer)
+		}
+	}
+
 	if kind == "copy" && strings.HasPrefix(path, from+"/") {
 		return fmt.Errorf("cannot copy '%s' into its own child '%s'", from, path)
 	}
